@@ -235,18 +235,27 @@ func windowAndTrimDifferential(rep *Report, rng *rand.Rand, thorough bool) {
 	rep.count("fn:slidingWindow+trimWriter")
 }
 
+var historyCaseNo int
+
 // genHistoryCase: compressible messages totalling more than the 32 KiB window, context takeover.
 func genHistoryCase(rng *rand.Rand) *WriteCase {
-	c := &WriteCase{Client: rng.Intn(2) == 0, Flate: true, Threshold: 1}
+	// all four takeover-flag pairs (asymmetric ones included) in both roles, in rotation
+	historyCaseNo++
+	k := historyCaseNo
+	c := &WriteCase{Client: k%2 == 0, Flate: true, Threshold: 1, CNCT: (k/2)%2 == 1, SNCT: (k/4)%2 == 1}
 	total := 0
 	for total < 100000 {
 		n := 5000 + rng.Intn(30000)
-		p := genPayload(rng, n)
-		// text-like so that later messages refer back into the window
+		// text over a small vocabulary, so that every message refers back into the earlier ones
+		p := make([]byte, n)
+		words := []string{"alpha ", "beta ", "gamma ", "websocket ", "deflate ", "{\"k\":1} ", "lorem ipsum dolor ", "0123456789 "}
+		for i := 0; i < n; {
+			i += copy(p[i:], words[rng.Intn(len(words))])
+		}
 		c.Ops = append(c.Ops, WriteOp{Kind: "write", Typ: 1, Chunks: []string{hx(p)}})
 		total += n
 	}
-	c.Desc = fmt.Sprintf("history>32KiB client=%v msgs=%d", c.Client, len(c.Ops))
+	c.Desc = fmt.Sprintf("history>32KiB client=%v cnct=%v snct=%v msgs=%d", c.Client, c.CNCT, c.SNCT, len(c.Ops))
 	return c
 }
 
@@ -464,7 +473,7 @@ func runC01(ctx *runCtx) {
 		return
 	}
 	rng := newRng(ctx.seed, "c01")
-	n, maxSize, nh := 500, 70000, 6
+	n, maxSize, nh := 500, 70000, 8
 	if ctx.thorough() {
 		n, maxSize, nh = 6000, 300000, 60
 	}
@@ -521,7 +530,7 @@ func runC02(ctx *runCtx) {
 	for i := 0; i < n; i++ {
 		cases = append(cases, genWriteCase(rng, maxSize, true))
 	}
-	for i := 0; i < 4; i++ {
+	for i := 0; i < 8; i++ {
 		cases = append(cases, genHistoryCase(rng))
 	}
 	for i := 0; i < 8; i++ {
